@@ -2,7 +2,7 @@
  * init_* computes for the SAME arguments - every field compared bit for bit - for symbolic log2bound / log2overhead, both cpu flags; failure (m not a
  * power of two) returns NULL; --memory-leak-check: nothing allocated here is live at the end.
  *   -DKIND=0 reim_from_znx64 1 reim_to_znx64 2 reim_to_tnx 3 cplx_to_tnx32 4 reim4_from_cplx 5 reim4_to_cplx 6 reim4_fftvec_mul 7 reim4_fftvec_addmul
- *           8 cplx_fftvec_mul 9 cplx_fftvec_addmul      -DM -DAVX -DDIVLOG */
+ *           8 cplx_fftvec_mul 9 cplx_fftvec_addmul 10 cplx_from_znx32 11 cplx_from_tnx32      -DM -DAVX -DDIVLOG */
 #include "common.h"
 #include "reim/reim_fft_internal.h"
 #include "reim/reim_fft_private.h"
@@ -31,6 +31,10 @@ void* init_reim4_to_cplx_precomp(REIM4_TO_CPLX_PRECOMP* res, uint32_t m);
 void* init_reim4_fftvec_mul_precomp(REIM4_FFTVEC_MUL_PRECOMP* res, uint32_t m);
 void* init_reim4_fftvec_addmul_precomp(REIM4_FFTVEC_ADDMUL_PRECOMP* res, uint32_t m);
 EXPORT void* init_cplx_fftvec_addmul_precomp(CPLX_FFTVEC_ADDMUL_PRECOMP* r, uint32_t m);
+void* init_cplx_from_znx32_precomp(CPLX_FROM_ZNX32_PRECOMP* res, uint32_t m);
+void* init_cplx_from_tnx32_precomp(CPLX_FROM_TNX32_PRECOMP* res, uint32_t m);
+CPLX_FROM_ZNX32_PRECOMP* new_cplx_from_znx32_precomp(uint32_t m);
+CPLX_FROM_TNX32_PRECOMP* new_cplx_from_tnx32_precomp(uint32_t m);
 EXPORT void* init_cplx_fftvec_mul_precomp(CPLX_FFTVEC_MUL_PRECOMP* r, uint32_t m);
 
 #ifdef __CPROVER__
@@ -104,6 +108,14 @@ void h_wrappers(void) {
 #elif KIND == 8
   CPLX_FFTVEC_MUL_PRECOMP q, *p = new_cplx_fftvec_mul_precomp(M);
   VF_ASSERT(p && init_cplx_fftvec_mul_precomp(&q, M) == &q, "both succeed");
+  SAME_FN(p, q);
+#elif KIND == 10
+  CPLX_FROM_ZNX32_PRECOMP q, *p = new_cplx_from_znx32_precomp(M);
+  VF_ASSERT(p && init_cplx_from_znx32_precomp(&q, M) == &q, "both succeed");
+  SAME_FN(p, q);
+#elif KIND == 11
+  CPLX_FROM_TNX32_PRECOMP q, *p = new_cplx_from_tnx32_precomp(M);
+  VF_ASSERT(p && init_cplx_from_tnx32_precomp(&q, M) == &q, "both succeed");
   SAME_FN(p, q);
 #else
   CPLX_FFTVEC_ADDMUL_PRECOMP q, *p = new_cplx_fftvec_addmul_precomp(M);
